@@ -487,6 +487,8 @@ func Gen(w *bufio.Writer, seed uint64, tier string) {
 	for i := 0; i < rounds; i++ {
 		emit("conc", "ok", []string{"none", "none", "ok"}[i%3], i%3, mix(64, validReq))
 	}
+	// 4. the values in the record vs. what was used (rec.go)
+	genRec(w, hx.NewRng(seed^0xC06F), tier)
 }
 
 // ---------------------------------------------------------------------------------------------
@@ -883,7 +885,11 @@ func runScenario(kind, fmode, amode string, pre int, reqs []*req) string {
 // Impl reads ops from stdin and runs them against the real server code.
 func Impl() {
 	zerolog.SetGlobalLevel(zerolog.Disabled)
+	defer hx.RunOnExit()
 	hx.EachLine(func(f []string) string {
+		if len(f) > 0 && f[0] == "rec" {
+			return runRec(f)
+		}
 		if len(f) < 5 || (f[0] != "seq" && f[0] != "conc") {
 			return "bad-op"
 		}
